@@ -1015,6 +1015,44 @@ fn cast_into_memory(
         return Some(memory.into_value(builder, ptr_ty));
     }
 
+    // variant -> optional / error union *of its enum*: build the enum first and wrap that,
+    // otherwise the variant would be unwrapped to its payload below and the payload
+    // (e.g. `void`, or a `u8` that happens to fit the success type) would be wrapped instead
+    if let Ty::EnumVariant { enum_uid, .. } = cast_from.as_ref() {
+        let is_own_enum =
+            |ty: &Intern<Ty>| matches!(ty.absolute_intern_ty(false).as_ref(), Ty::Enum { uid, .. } if uid == enum_uid);
+        let through = match cast_to.as_ref() {
+            Ty::Optional { sub_ty } if is_own_enum(sub_ty) => Some(*sub_ty),
+            Ty::ErrorUnion { error_ty, .. } if is_own_enum(error_ty) => Some(*error_ty),
+            Ty::ErrorUnion { payload_ty, .. } if is_own_enum(payload_ty) => Some(*payload_ty),
+            _ => None,
+        };
+        if let Some(enum_ty) = through {
+            let as_enum = cast_into_memory(
+                meta_tys,
+                module,
+                builder,
+                func_writer,
+                ptr_ty,
+                val,
+                cast_from_original,
+                enum_ty,
+                None,
+            );
+            return cast_into_memory(
+                meta_tys,
+                module,
+                builder,
+                func_writer,
+                ptr_ty,
+                as_enum,
+                enum_ty,
+                cast_to,
+                memory,
+            );
+        }
+    }
+
     // if it wasn't variant -> enum, we unwrap the variant fully and check for other casts
     cast_from = cast_from.absolute_intern_ty(true);
 
